@@ -305,9 +305,25 @@ export function definePropComponent(ge, space) {
   })
 }
 
+/** `<d-s list="{{...}}">`: a dynamic-slots child (opts.dynSlotChild = its compiled group list) that renders its slot once
+ *  per item of its `list` property, handing over the slot values `v` (item.v) and `i` (index). */
+export const DYN_SLOT_CHILD_SRC = '<block wx:for="{{list}}"><slot v="{{item.v}}" i="{{index}}"/></block>'
+export function defineDynSlotChild(ge, space, childGroups) {
+  const ctr = new Trace()
+  ctr.keep = false
+  return space.defineComponent({
+    is: 'cmp/d-s',
+    // (properties are copied on the way in, as by default: a list that the host mutates in place still arrives as a new value)
+    options: { dynamicSlots: true, dataDeepCopy: ge.DeepCopyKind.None, propertyPassingDeepCopy: ge.DeepCopyKind.Simple },
+    properties: { list: null },
+    template: instrumentedTemplate(childGroups, 'child', ctr),
+  })
+}
+
 /** Create a root component from an instrumented template. */
 export function createRoot(ge, template, data, opts = {}) {
   const space = opts.space || new ge.ComponentSpace()
+  if (opts.dynSlotChild) opts = { ...opts, using: { ...(opts.using || {}), 'd-s': defineDynSlotChild(ge, space, opts.dynSlotChild).general() } }
   if (opts.propComponents) opts = { ...opts, using: { ...(opts.using || {}), [PROP_COMPONENT_TAG]: definePropComponent(ge, space).general() } }
   const def = space.defineComponent({
     options: { dataDeepCopy: ge.DeepCopyKind.None, propertyPassingDeepCopy: ge.DeepCopyKind.None, ...(opts.options || {}) },
